@@ -240,7 +240,13 @@ def _process_post_render_queue(
 
             # Allow to optionally override/modify the rendered content from outside
             component_html = "".join(parent_parts)
-            on_component_rendered = on_component_rendered_callbacks[curr_item.parent_id]
+            on_component_rendered = on_component_rendered_callbacks.get(curr_item.parent_id)
+            if on_component_rendered is None:
+                # The component was rendered inside this component tree, but it was defined (and so it registered
+                # its callback) in another component tree. This happens when the default content of a slot is
+                # rendered via `{{ default_var }}` inside a fill that is itself rendered as a separate tree.
+                comp_ctx = component_context_cache[curr_item.parent_id]
+                on_component_rendered = comp_ctx.post_render_callbacks[curr_item.parent_id]
             # NOTE: `on_component_rendered` calls the `on_render_after()` hook, so, same as when rendering
             # the component below, errors are prefixed with the path of the component.
             with component_error_message(curr_item.component_name_path[1:]):
